@@ -155,7 +155,7 @@ def gen_towards(rng, n):
 
 def run_towards(inp):
     P, Qp = H.Point(G.fv(inp["p"])), H.Point(G.fv(inp["q"]))
-    d = float(np.asarray(P.distance(Qp)).reshape(-1)[0])
+    d = _d(P, Qp)
     tv = P.unit_tangent_towards(Qp)
     vec = np.array(tv.vector, dtype=float).copy()
     end = tv.point_along(d)
@@ -205,7 +205,7 @@ def run_along(inp):
     end = tv.normalized().point_along(t)
     P = H.Point(G.fv(inp["p"]))
     return {"end": np.array(end.proj_data, dtype=float).tolist(), "th": float(H.hyp_to_affine_dist(t)),
-            "d": float(np.asarray(P.distance(end)).reshape(-1)[0]), "t": t}
+            "d": _d(P, end), "t": t}
 
 
 def lean_along(inp, obs):
@@ -431,6 +431,10 @@ def gen_o_along(rng, n):
 
 
 def _d(a, b):
+    """d(a, b), measured on copies: the measurement must not touch the objects under test (Point.distance may or may
+    not rescale the stored coordinates of its arguments; nothing promises either)"""
+    a = H.Point(np.array(a.proj_data, dtype=float).copy())
+    b = H.Point(np.array(b.proj_data, dtype=float).copy())
     return float(np.asarray(a.distance(b)).reshape(-1)[0])
 
 
